@@ -1126,7 +1126,7 @@ func init() {
 		NonTrivial: func(p *Program, r *Result) bool {
 			return r.Probes["publish.reference.accept"]+r.Probes["publish.reference.reject"] >= 2
 		},
-		Rule:     "POST /messages/publish batches of 1-12 items with zero or one invalid item of every kind at every position (unknown route, publish disabled by route flag, payload over max_body, invalid base64, invalid header name/value, bad timestamp, blank id, id repeated in the batch, id already queued, unknown target), request-level faults (missing audit reason, unknown fields, missing/wrong admin token), pull / single- and multi-target deliver / outbound / internal routes, nearly full queues under both drop policies; oracle: reference validator -> reject => listing unchanged and item_index names the offending item; accept => every item stored once, queued, one target, or 503 with nothing stored when the model says the queue is full; non-trivial = >=2 publishes judged; distinct = step-kind sequences",
+		Rule:     "POST /messages/publish batches of 1-12 items with zero or one invalid item of every kind at every position (unknown route, publish disabled by route flag, payload over max_body, invalid base64, invalid header name/value, bad timestamp, blank id, id repeated in the batch, id already queued, unknown target), request-level faults (missing audit reason, unknown fields, missing/wrong admin token), pull / single- and multi-target deliver / outbound / internal routes, nearly full queues under both drop policies; oracle: reference validator -> reject => listing unchanged and item_index names the offending item; accept => every item stored once, queued, one target, or 503 with nothing stored when the model says the queue is full; one in four programs ends with two publishes in flight at once that share an id (statement-level interleaving of the handler and the store calls: a 2xx publish has all its items once, a refused one none of its own, never two 2xx); near-miss spellings of configured routes as unknown routes; non-trivial = >=2 publishes judged; distinct = step-kind sequences",
 		RealStub: stub,
 		Quick:    5000, Thorough: 120000,
 	})
